@@ -524,6 +524,17 @@ theorem all_wf_of_check (us : List UnitRow) (h : us.all (fun u => convOk u.conv)
   intro u hu
   exact convOk_wf u.conv (List.all_eq_true.mp h u hu)
 
+/-- whole generated table: every coefficient a non-zero fraction, every temperature pair inverse -/
+theorem units_all_convOk : units.all (fun u => convOk u.conv) = true := by decide +kernel
+
+/-- whatever an identifier resolves to is a well-formed row of the table -/
+theorem resolved_unit_wf (q : List Nat) (j : Nat) (h : resolveIn units q = .ok j) :
+    (toQ (units.getD j default).conv).WellFormed := by
+  obtain ⟨u, hu, _⟩ := resolve_ok_sound units q j h
+  have : units.getD j default = u := by simp [List.getD, hu]
+  rw [this]
+  exact all_wf_of_check units units_all_convOk u (List.mem_of_getElem? hu)
+
 /-- coefficient strictly positive -/
 def coefPositive : Conv → Bool
   | .linear n d _ _ => decide (0 < n) && decide (0 < d)
